@@ -85,6 +85,7 @@ class LogReader(asyncio.StreamReader):
             raise
         if self._count <= 3:
             self._sess.ev("ReadEnd", conn=self._conn, n=len(data), err="")
+        self._sess.reads.setdefault(self._conn, []).append(len(data))
         return data
 
     async def readexactly(self, n):
@@ -173,6 +174,7 @@ class Session:
         self.readers: dict[int, LogReader] = {}
         self.writers: dict[int, FakeWriter] = {}
         self.wire: dict[int, list[bytes]] = {}
+        self.reads: dict[int, list[int]] = {}      # sizes of the reads each connection's reader returned
         self.attempts = 0
         self.delivered: list = []
         self.beats = 0
